@@ -586,6 +586,17 @@ func (Scenario) Run(c choice.Chooser, opt sim.Options) (res sim.Result) {
 			hist = append(hist, "start from shipped graph")
 			shipped = true
 			res.Count("probe:shipped-graph-start", 1)
+			// the property's second quantifier: a shipped file, loaded and
+			// saved, is reproduced byte for byte
+			var first []byte
+			if p := try(func() { first = w.app.Schema() }); p != "" {
+				return violate("save-panics", "saving a freshly loaded shipped graph panicked: "+p, nil)
+			}
+			res.Evals++
+			if !bytes.Equal(first, g) {
+				return violate("shipped-graph-resave-differs", "loading a graph file shipped with the repository and saving it does not reproduce the file byte for byte: "+firstDiff(string(g), string(first)), nil)
+			}
+			res.Count("probe:shipped-graph-resaved-identically", 1)
 		}
 	}
 
